@@ -154,6 +154,32 @@ def option_sets(sc, f, nlines, commits):
     if nlines >= 2:
         a = rng.randrange(1, nlines + 1); b = rng.randrange(a, nlines + 1)
         sets.append(["-L", "%d,%d" % (a, b)])
+    if nlines >= 4:
+        # several -L ranges: disjoint, touching, overlapping, nested, given in any order (git blames the union)
+        def one():
+            x = rng.randrange(1, nlines + 1); y = rng.randrange(x, nlines + 1)
+            return x, y
+        (a1, b1), (a2, b2) = one(), one()
+        kind = rng.choice(["random", "nested", "nested-rev", "touching", "three"])
+        if kind in ("nested", "nested-rev"):
+            a1, b1 = rng.randrange(1, nlines // 2 + 1), rng.randrange(nlines // 2 + 1, nlines + 1)
+            a2 = rng.randrange(a1, b1 + 1); b2 = rng.randrange(a2, b1 + 1)
+            if kind == "nested-rev":
+                (a1, b1), (a2, b2) = (a2, b2), (a1, b1)
+        elif kind == "touching":
+            a1, b1 = 1, max(1, nlines // 2); a2, b2 = b1 + 1, nlines
+        multi = ["-L", "%d,%d" % (a1, b1), "-L", "%d,%d" % (a2, b2)]
+        if kind == "three":
+            a3, b3 = one()
+            multi += ["-L", "%d,%d" % (a3, b3)]
+        sets.append(multi)
+        # relative and open-ended forms (finding D59 while the flag is off) and -w (finding D60)
+        a = rng.randrange(1, nlines + 1)
+        if sc.profile.get("blame_L_relative_forms", True):
+            sets.append(rng.choice([["-L", "%d,+%d" % (a, rng.randrange(1, nlines - a + 2))], ["-L", "%d,-%d" % (a, rng.randrange(1, a + 1))],
+                                    ["-L", "%d," % a], ["-L", ",%d" % a], ["-L", "%d" % a]]))
+        if sc.profile.get("blame_w", True):
+            sets.append(["-w"] + (rng.choice([[], ["-L", "%d,%d" % (a1, b1)]])))
     if len(commits) > 2:
         c = rng.choice(commits[:-1])
         sets.append(["--ignore-rev", c])
